@@ -157,6 +157,8 @@ class C07Representations(Harness):
                 if p.get("small"):
                     ar = zabs(R[0])
                     cx.assume(rising_pairs(L, R), ar >= 1, L[1] - R[0] >= ar / 400000, L[1] - R[0] <= ar / 200000)
+                    # clearly unequal widths (is_regular has its own tolerance; the instance is not about it)
+                    cx.assume((R[0] - L[0]) > (R[1] - L[1]) * z3.Q(5, 4))
                 else:
                     cx.assume(rising_pairs(L, R), tolerance_band(L, R))
                 cx.define("small_gap", z3.BoolVal(bool(p.get("small"))))
@@ -335,7 +337,7 @@ class C07Factories(Harness):
         yield "integer-N1", dict(kind="integer", N=1)
         for how in ("int", "edges", "pairs", "name_numpy", "name_fixed_width", "name_integer", "object", "callable", "unknown", "none", "sqrt"):
             yield f"dispatch-{how}", dict(kind="dispatch", N=2, how=how)
-        for how in ("list_per_axis", "scalar_for_all", "wrong_len", "range_pair", "dim_mismatch", "kw_list", "kw_scalar", "kw_wrong_len", "range_per_axis", "columns_distinct"):
+        for how in ("list_per_axis", "scalar_for_all", "wrong_len", "range_pair", "dim_mismatch", "kw_list", "kw_scalar", "kw_wrong_len", "range_per_axis", "columns_distinct", "tuple_edges_for_all", "tuple_len_dim"):
             yield f"dispatch-nd-{how}", dict(kind="dispatch_nd", N=2, how=how)
 
     def declare(self, cx, p):
@@ -409,6 +411,11 @@ class C07Factories(Harness):
                 r = E.attempt(C.calculate_nd_bins, arr2, 2)
             elif how == "wrong_len":
                 r = E.attempt(C.calculate_nd_bins, arr2, [2, 2, 2])
+            elif how == "tuple_edges_for_all":
+                # a tuple is ONE edge specification applied to every axis (a list is one item per axis)
+                r = E.attempt(C.calculate_nd_bins, arr2, (-64.0, 0.0, 64.0))
+            elif how == "tuple_len_dim":
+                r = E.attempt(C.calculate_nd_bins, arr2, (-64.0, 64.0))
             elif how == "range_pair":
                 r = E.attempt(C.calculate_nd_bins, arr2, 2, range=(-4.0, 4.0))
             elif how in ("kw_list", "kw_scalar", "kw_wrong_len", "range_per_axis", "columns_distinct"):
@@ -544,6 +551,10 @@ class C07Factories(Harness):
         elif how == "scalar_for_all":
             yield "scalar_fans_out", all(r["cls"] == "NumpyBinning" and len(r["bins"]) == 2 for r in res)
             yield "covers_columns", z3.And([covers(r["bins"], mn, mx) for r in res])
+        elif how in ("tuple_edges_for_all", "tuple_len_dim"):
+            exp = [-64, 0, 64] if how == "tuple_edges_for_all" else [-64, 64]
+            yield "tuple_is_one_edge_spec_for_every_axis", z3.And([z3.BoolVal(len(r["bins"]) == len(exp) - 1) for r in res]
+                                                                  + [z3.And(cx.t(r["bins"][j][0]) == exp[j], cx.t(r["bins"][j][1]) == exp[j + 1]) for r in res for j in range(min(len(r["bins"]), len(exp) - 1))])
         elif how == "range_pair":
             yield "range_applies_to_all", z3.And([z3.And(cx.t(r["bins"][0][0]) == -4, cx.t(r["bins"][-1][1]) == 4) for r in res])
         elif how == "range_per_axis":
